@@ -1877,6 +1877,17 @@ def check_patterns(ctx, stats, hist):
         ctx.assumptions.append(f"pattern-gate family not run (builder C07's model driver unavailable): {ex!r}"[:200])
         return
     fam = pat_family()
+    # builder C07's seed-independent families, reused read-only: `wrapper_family` (type side: enums with
+    # 1/2/3 variants x payload arity 0..3, single-variant wrappers over struct / enum / wrapper payloads,
+    # the refutable leaf at every path to depth 3, as match / let / if-let) and `deterministic_family`
+    # (every branch of check_matching_pattern). The verdict is the model's; no label bookkeeping.
+    for name in ("wrapper_family", "deterministic_family"):
+        gen = getattr(c07, name, None)
+        if gen is None:
+            ctx.assumptions.append(f"vlib/c07.{name} not available: that part of the pattern-gate family was not run")
+            continue
+        for i, case in enumerate(gen()):
+            fam.append((f"c07:{name}#{i}", case))
     srcs = [c07.render_case(case) for _, case in fam]
     model = common.run_exec(common.driver_bin("C07"), [], [c07.case_line(case, src) for (_, case), src in zip(fam, srcs)])[1]
     progs = []
@@ -1895,7 +1906,7 @@ def check_patterns(ctx, stats, hist):
                           "broken": "drv-c07 chk"}, no_input=True)
             continue
         expect_reject = mv["err"] or mv["nonexh"] is not None or mv["useless"]
-        if (("-ok" in label) or label.endswith("/ok")) == expect_reject:
+        if not label.startswith("c07:") and (("-ok" in label) or label.endswith("/ok")) == expect_reject:
             ctx.violation(f"pattern-gate family: the model's verdict for {label} contradicts the family's own bookkeeping",
                           {"protocol": "pat", "case": label, "model": m, "broken": "vlib/c06.py pat_family vs Model/Useful.lean"}, no_input=True)
             continue
